@@ -5,12 +5,12 @@
 set -u
 ID="$1"; TIER="${2:-quick}"
 cd /verif
-P="${3:-$(python3 -c "import json;print(json.load(open('seeded/$ID/meta.json'))['property'])")}"
+P="${3:-$(python3 -c "import json;print(json.load(open('${SEEDED_DIR:-seeded}/$ID/meta.json'))['property'])")}"
 W="/tmp/mutwt.$ID.$$"
 git -C /repo worktree add --detach "$W" HEAD >/dev/null 2>&1 || { echo "worktree failed"; exit 2; }
 trap 'git -C /repo worktree remove --force "$W" >/dev/null 2>&1' EXIT
-PATCH="/verif/seeded/$ID/patch.diff"
-[ -f "/verif/seeded/$ID/patch-rebased.diff" ] && PATCH="/verif/seeded/$ID/patch-rebased.diff"   # same change, re-based after /repo fix commits
+PATCH="/verif/${SEEDED_DIR:-seeded}/$ID/patch.diff"
+[ -f "/verif/${SEEDED_DIR:-seeded}/$ID/patch-rebased.diff" ] && PATCH="/verif/${SEEDED_DIR:-seeded}/$ID/patch-rebased.diff"   # same change, re-based after /repo fix commits
 git -C "$W" apply "$PATCH" || { echo "$ID: patch does not apply to current /repo HEAD"; exit 3; }
 mkdir -p out
 PICOSVG_SRC="$W/src" VERIF_EVIDENCE_DIR="/verif/out/evidence-mut" ./check "$P" "$TIER" > "out/mut-$ID-$P.log" 2>&1; rc=$?
